@@ -14,7 +14,7 @@ import (
 	"strconv"
 	"strings"
 
-	_ "verif/harness/checks"
+	"verif/harness/checks"
 	"verif/harness/vk"
 )
 
@@ -68,6 +68,11 @@ func main() {
 		n, _ := strconv.Atoi(sh[1])
 		from, _ := strconv.Atoi(opt("from", "0"))
 		os.Exit(vk.WorkerMain(args[0], opt("tier", "quick"), parseU(opt("seed", "1")), k, n, from, opt("out", "/dev/stdout")))
+	case "firstuse":
+		if len(args) < 1 {
+			usage()
+		}
+		os.Exit(checks.FirstUseMain(parseU(args[0])))
 	case "replay":
 		if len(args) < 1 {
 			usage()
